@@ -101,6 +101,8 @@ type k4interp struct {
 	// model the callee's effect on memory (e.g. what a search callback did)
 	onOpaque func(name string, args []k4val)
 	stack    []*ssa.Function // functions being interpreted (a new helper that recurses is not unfolded)
+	// recurseNew: unfold recursive new helpers too (bounded by the inlining depth); for searches that were recursive closures
+	recurseNew bool
 	// answer (optional) supplies values for opaque queries the model does not list
 	answer func(key string, isBool bool) (k4val, bool)
 }
@@ -1027,7 +1029,7 @@ func (it *k4interp) eval1(fr *k4frame, v ssa.Value) (k4val, error) {
 				return r, err
 			}
 		}
-		if cal != nil && cal.Blocks != nil && ((it.inline != nil && it.inline(cal)) || (k4WrapperInline != nil && k4WrapperInline(cal) && !it.onStack(cal)) || (isNewHelper(cal) && !it.onStack(cal))) {
+		if cal != nil && cal.Blocks != nil && ((it.inline != nil && it.inline(cal)) || (k4WrapperInline != nil && k4WrapperInline(cal) && !it.onStack(cal)) || (isNewHelper(cal) && (it.recurseNew || !it.onStack(cal))) || (cal.Parent() != nil && len(it.stack) > 0 && rootFunc(cal) == rootFunc(it.stack[0]) && !it.onStack(cal))) {
 			var args []k4val
 			for _, a := range x.Call.Args {
 				av, err := it.eval(fr, a)
